@@ -21,7 +21,7 @@ def main():
     checks = a[a.index("--checks") + 1].split(",") if "--checks" in a else [prop]
     modes = a[a.index("--modes") + 1] if "--modes" in a else None
     tier = a[a.index("--tier") + 1] if "--tier" in a else "quick"
-    seed = os.path.join(src, "SEED")
+    seed = os.path.join(src, "SEED") if os.path.isdir(os.path.join(src, "SEED")) else src
     patch = os.path.join(seed, "patch.diff")
     demo = os.path.join(seed, "seed_demo.rs")
     assert os.path.exists(patch), patch
@@ -90,11 +90,12 @@ def main():
     # ---- 3. keep
     dst = os.path.join(VERIF, "seeded", sid)
     os.makedirs(dst, exist_ok=True)
-    shutil.copy(patch, os.path.join(dst, "patch.diff"))
-    if os.path.exists(demo):
-        shutil.copy(demo, os.path.join(dst, "seed_demo.rs"))
-    if os.path.exists(readme):
-        shutil.copy(readme, os.path.join(dst, "README.md"))
+    if os.path.abspath(seed) != os.path.abspath(dst):
+        shutil.copy(patch, os.path.join(dst, "patch.diff"))
+        if os.path.exists(demo):
+            shutil.copy(demo, os.path.join(dst, "seed_demo.rs"))
+        if os.path.exists(readme):
+            shutil.copy(readme, os.path.join(dst, "README.md"))
     meta["detected_by"] = [c for c, v in meta["checks"].items() if v["violations"] > 0]
     json.dump(meta, open(os.path.join(dst, "meta.json"), "w"), indent=1)
     print("kept=%s detected_by=%s" % (meta["kept"], meta["detected_by"]))
